@@ -873,6 +873,44 @@ def substitute_args(t, args):
     return rewrite(t, f)
 
 
+_DEAD_EDGE_BUSY = [0]
+
+
+def _dead_variant_edges(body):
+    cached = getattr(body, "_dead_variant_edges", None)
+    if cached is not None:
+        return cached
+    dead = set()
+    _DEAD_EDGE_BUSY[0] += 1
+    try:
+        tm0 = Terms(body)
+        for bb, blk in enumerate(body.blocks):
+            if blk["cleanup"] or blk["term"]["k"] != "switch":
+                continue
+            try:
+                d, names = switch_discr_info(body, bb)
+            except Exception:
+                continue
+            if not names:
+                continue
+            dt = tm0.operand(d, bb)
+            if dt[0] != "discr" or dt[1][0] != "field":
+                continue
+            kv = _known_variant(nosite(dt[1]))
+            if kv is not None and kv in names.values():
+                keep = switch_target(blk["term"], names, kv)
+                for tgt in [x[1] for x in blk["term"]["targets"]] + [blk["term"]["otherwise"]]:
+                    if tgt != keep:
+                        dead.add((bb, tgt))
+    finally:
+        _DEAD_EDGE_BUSY[0] -= 1
+    try:
+        body._dead_variant_edges = dead
+    except AttributeError:
+        pass
+    return dead
+
+
 class Terms:
     """Demand-driven value-flow (origin terms) for one body.
 
@@ -881,6 +919,13 @@ class Terms:
 
     def __init__(self, body, edge_ok=None, keep_transparent=False):
         self.body = body
+        if edge_ok is None and body.raw.get("inlined") and not _DEAD_EDGE_BUSY[0]:
+            # a body that received inlined copies: arms of a match on a value built by a known constructor in the caller
+            # (`opt.map(Side::Upstream)` handed to a helper that matches on the side) are dead; values are read without them
+            dead = _dead_variant_edges(body)
+            if dead:
+                live = body.reachable(start=0, removed_edges=dead)
+                edge_ok = lambda a, b_, dead=dead, live=live: (a, b_) not in dead and a in live
         self.edge_ok = edge_ok
         self.keep_transparent = keep_transparent
         self.track_mut = True
@@ -1285,6 +1330,15 @@ def strip_try(t):
         elif t[0] == "call" and len(t[2]) >= 1 and _is_unwrapish(t[1]):
             t = t[2][0]
             changed = True
+        elif t[0] == "field" and t[2] in (0, "0") and t[1][0] == "variant":
+            # ((opt.map(Enum::V) payload) as V).0 -> the payload of opt: a one-field variant constructor mapped over an
+            # Option and taken apart again by a match on that variant
+            m_ = t[1][1]
+            while m_[0] == "mut":
+                m_ = m_[1]
+            if m_[0] == "call" and re.search(r"(Option::<T>|Result::<T, E>)::map$", m_[1].split("{")[0]) and len(m_[2]) == 2 and m_[2][1][0] == "fn" and m_[2][1][1].split("{")[0].split("::")[-1] == t[1][2]:
+                t = m_[2][0]
+                changed = True
     return t
 
 
@@ -1497,6 +1551,12 @@ def enumerate_paths(body, max_paths=20000, choose=None, stop_at_loops=True, star
             allowed = None
             if choose is not None:
                 allowed = choose(bb, dt, names, t)
+            if names is not None and dt[0] == "discr":
+                # a value built by a known constructor (`opt.map(Side::Upstream)` matched by an inlined helper): one arm only
+                kv0_ = _known_variant(nosite(dt[1])) if dt[1][0] == "field" else None
+                if kv0_ is not None and kv0_ in names.values():
+                    keep0_ = switch_target(t, names, kv0_)
+                    allowed = {keep0_} if allowed is None else (set(allowed) & {keep0_})
             if names is not None and dt[0] == "discr" and body.raw.get("inlined") and contains(dt[1], lambda q: q[0] == "phi" and any((a_[0] == "agg" and a_[1] in ("std::result::Result", "std::option::Option")) or (a_[0] == "call" and a_[1].endswith("::from_residual")) for a_ in q[1])):
                 # the result of an inlined copy: on this path it is one of its literal outcomes — prune while walking
                 edges_ = set(zip(blocks, blocks[1:]))
@@ -1547,6 +1607,15 @@ def _known_variant(t):
         return None
     if t[0] == "agg" and isinstance(t[2], str):
         return t[2]
+    # the payload of `opt.map(Enum::Variant)`: built by that variant's constructor whatever opt holds
+    if t[0] == "field" and str(t[2]) == "0" and t[1][0] == "variant" and t[1][2] in ("Some", "Ok"):
+        m_ = t[1][1]
+        while m_[0] == "mut":
+            m_ = m_[1]
+        if m_[0] == "call" and re.search(r"(Option::<T>|Result::<T, E>)::map$", m_[1].split("{")[0]) and len(m_[2]) == 2 and m_[2][1][0] == "fn":
+            seg = m_[2][1][1].split("{")[0].split("::")
+            if len(seg) >= 2 and seg[-1][:1].isupper() and seg[-2][:1].isupper():
+                return seg[-1]
     if t[0] == "call" and re.search(r"FromResidual<.*>>::from_residual$", t[1]):
         # the value `e?` returns early with: always the error side
         return "Err" if t[1].startswith("<std::result::Result<") else ("None" if t[1].startswith("<std::option::Option<") else None)
